@@ -134,7 +134,7 @@ class EcdsaSignSpy:
 class C13(Prop):
     id = 'C13'
     title = 'Keys: pubkey derivation, WIF round trip, ECDSA sign/verify match secp256k1'
-    table_groups = []      # the two table bytes C13 depends on (SECRET_KEY per chain) are tied by T2 directly: `c13.key`
+    table_groups = ['ChainSecret']   # T1: the per-chain SECRET_KEY byte (Tables/ChainSecret); also tied by T2 (`c13.key`)
                            # compares the version byte and the WIF text under each chain (B8: no shared ChainAddr obligation)
     lean_targets = ['BtcVerif.Props.C13', 'BtcVerif.Props.Coherence']
     theorems = ['BtcVerif.C13.' + t for t in (
